@@ -56,6 +56,9 @@ type Stream struct {
 	// regularSeen is set once a non-pseudo header is decoded in the block.
 	// Any pseudo-header after that point is invalid.
 	regularSeen bool
+	// malformed is the stream error a field of the request's header block
+	// earned. It is held back until the block has been decoded to its end.
+	malformed error
 
 	// content-length declared by the request, and the number of DATA bytes
 	// received so far, used to validate the two match (RFC 7540 8.1.2.6).
@@ -125,6 +128,7 @@ func NewStream(id uint32, win int32) *Stream {
 	strm.pseudoPath = false
 	strm.pseudoAuthority = false
 	strm.regularSeen = false
+	strm.malformed = nil
 	strm.contentLength = 0
 	strm.hasContentLength = false
 	strm.recvBody = 0
